@@ -474,10 +474,10 @@ pub fn c04(tier: &str, seed: u64) -> i32 {
         }
         // histories in which key records are relocated and chains re-linked (offsets crossing 16 KiB)
         let specs = vec![
-            crate::props_c08::SeedSpec { file: "val", boundary: 16 * 1024, eps: 16, free_slots: 0 },
-            crate::props_c08::SeedSpec { file: "key", boundary: 16 * 1024, eps: 16, free_slots: 2 },
-            crate::props_c08::SeedSpec { file: "key", boundary: 16 * 1024, eps: 16, free_slots: 0 },
-            crate::props_c08::SeedSpec { file: "both", boundary: 16 * 1024, eps: 16, free_slots: 2 },
+            crate::props_c08::SeedSpec { file: "val", boundary: 16 * 1024, eps: 16, free_slots: 0 , val_pad: 0},
+            crate::props_c08::SeedSpec { file: "key", boundary: 16 * 1024, eps: 16, free_slots: 2 , val_pad: 0},
+            crate::props_c08::SeedSpec { file: "key", boundary: 16 * 1024, eps: 16, free_slots: 0 , val_pad: 0},
+            crate::props_c08::SeedSpec { file: "both", boundary: 16 * 1024, eps: 16, free_slots: 2 , val_pad: 0},
         ];
         crate::props_c08::seeded_group(&mut ctx, "C04", crate::engine_a::O_ITER, 0, 2, vec![3, 200], &specs, 60_000, 10.0);
         if thorough {
